@@ -189,3 +189,39 @@ def lock_kind(repo: Repo, cls: Fn, attr: str) -> Optional[str]:
                             return f"Condition({lock_kind(repo, cls, f)})"
                     return nm
     return None
+
+
+def discipline(rep, cl: "ClassLocks", w_rule: str, r_rule: str, skip=("__init__",), read_ok=None,
+               what: str = "") -> None:
+    """L1: writes to guarded fields under the lock.  L2/L3: reads that decide anything under the lock, except
+    monotone early exits, pure getters and `read_ok(access)` idioms named by the caller."""
+    for m in cl.methods:
+        if m.name in skip:
+            continue
+        getter = cl.is_pure_getter(m)
+        for g in m.walk():
+            if not g.is_func:
+                continue
+            nested = g is not m
+            for a in cl.accesses(g) if not nested else _nested_accesses(cl, g):
+                c = f"{g.qual.split('.', 1)[-1]}: {a.mode} self.{a.field} in `{short(a.site.stmt, 60)}`"
+                if a.mode == "w":
+                    rep.ob(w_rule, g, c, a.locked,
+                           f"write to guarded field self.{a.field} outside the lock{what}")
+                else:
+                    ok = a.locked or (getter and not nested) or cl.is_early_exit_read(a) or bool(read_ok and read_ok(a))
+                    rep.ob(r_rule, g, c, ok,
+                           f"self.{a.field} is read outside the lock and the result decides a side effect (not a "
+                           f"monotone early exit, not a pure getter){what}")
+
+
+def _nested_accesses(cl: "ClassLocks", g: Fn):
+    out = []
+    for s in sites(g):
+        n = s.node
+        f = field_of(n, cl.recv)
+        if f is None or f not in cl.fields:
+            continue
+        locked = cl.held(s)
+        out.append(Access(s, f, "w" if isinstance(n.ctx, (ast.Store, ast.Del)) else "r", locked, g))
+    return out
